@@ -536,6 +536,10 @@ func main() {
 		os.Exit(2)
 	}
 	root := os.Args[1]
+	outPath, err := filepath.Abs(os.Args[2])
+	if err != nil {
+		panic(err)
+	}
 	if err := os.Chdir(root); err != nil {
 		panic(err)
 	}
@@ -664,10 +668,10 @@ func main() {
 		out.WriteString(fmt.Sprintf("%q", p))
 	}
 	out.WriteString("]\n\nend Clemens.Src\n")
-	old, err := os.ReadFile(os.Args[2])
+	old, err := os.ReadFile(outPath)
 	if err != nil || string(old) != out.String() {
-		os.MkdirAll(filepath.Dir(os.Args[2]), 0o755)
-		os.WriteFile(os.Args[2], []byte(out.String()), 0o644)
+		os.MkdirAll(filepath.Dir(outPath), 0o755)
+		os.WriteFile(outPath, []byte(out.String()), 0o644)
 	}
 	if len(fails) > 0 {
 		for _, f := range fails {
